@@ -101,7 +101,10 @@ def run(ctx):
                 if m and m.group(1) == "PyCompileError":       # the message starts with the file name: key on the offending line
                     ls = [x.strip() for x in dump["error"].split("\n") if x.strip() and not x.strip().startswith(("File ", "^"))]
                     what = " / ".join(ls[-2:])[:80]
-                ctx.violation("import|%s|%s" % (m.group(1) if m else "?", what),
+                key = "import|%s|%s" % (m.group(1) if m else "?", what)
+                if c.get("pykeywords") and m and m.group(1) == "PyCompileError" and "SyntaxError" in dump["error"]:
+                    key = "dev:Dev_PyKeywordUnescaped"
+                ctx.violation(key,
                               "generated module cannot be %s: %s" % ("imported" if dump["compiled"] else "compiled", dump["error"][:300]),
                               {"choice": c["choice"], "input": txt, "error": dump["error"]})
                 continue
@@ -109,7 +112,10 @@ def run(ctx):
                 samples.append({"choice": c["choice"], "class": dump["classes"][-1]})
             for clause, msg in compare(c, dump):
                 dis += 1
-                if clause.startswith("ctor:") and clause.split(":", 1)[1] in c["pydiamond"]:
+                devp = {d["name"]: d["params"] for d in c["pydiamond"]}
+                got = {x["name"]: [re.sub(r"^inherited\d+__", "", p) for p in x["params"]] for x in dump["classes"]}
+                cn = clause.split(":", 1)[1] if clause.startswith("ctor:") else None
+                if cn in devp and got.get(cn) == devp[cn]:
                     key = "dev:Dev_PyCtorRepeatsSharedAncestor"
                 else:
                     key = "%s|%s" % (clause, key0)
